@@ -41,6 +41,9 @@ enum Cond {
     DefX,
     DefU,
     C1Eq2,
+    /// a constant that is defined at the end of main.asm (unknown in the first pass), 1 / 0
+    Late1,
+    Late0,
 }
 
 #[derive(Clone, Copy, PartialEq, Eq, Hash, Debug, PartialOrd, Ord)]
@@ -51,6 +54,10 @@ enum IfShape {
     ThenElse,
     /// `.if c { filler } else { child }`
     InElse,
+    /// as ThenElse / InElse, the filler branch also *defining* the names the rest of the program
+    /// uses (`fwd:`, `outer:`, the nest's constants with another value)
+    ThenElseDefs,
+    InElseDefs,
 }
 
 #[derive(Clone, Copy, PartialEq, Eq, Hash, Debug, PartialOrd, Ord)]
@@ -149,11 +156,15 @@ impl Level {
                     Cond::DefX => "defined-x",
                     Cond::DefU => "defined-u",
                     Cond::C1Eq2 => "c1==2",
+                    Cond::Late1 => "late-1",
+                    Cond::Late0 => "late-0",
                 };
                 match s {
                     IfShape::Then => format!("if({})", c),
                     IfShape::ThenElse => format!("if({},else)", c),
                     IfShape::InElse => format!("if({},in-else)", c),
+                    IfShape::ThenElseDefs => format!("if({},else-defs)", c),
+                    IfShape::InElseDefs => format!("if({},in-else-defs)", c),
                 }
             }
             Level::Macro { place, calls, params } => format!(
@@ -217,8 +228,8 @@ fn all_levels() -> Vec<Level> {
     for n in 0..=3u8 {
         v.push(Level::Loop(n));
     }
-    for c in [Cond::Lit1, Cond::Lit0, Cond::DefX, Cond::DefU, Cond::C1Eq2] {
-        for s in [IfShape::Then, IfShape::ThenElse, IfShape::InElse] {
+    for c in [Cond::Lit1, Cond::Lit0, Cond::DefX, Cond::DefU, Cond::C1Eq2, Cond::Late1, Cond::Late0] {
+        for s in [IfShape::Then, IfShape::ThenElse, IfShape::InElse, IfShape::ThenElseDefs, IfShape::InElseDefs] {
             v.push(Level::If(c, s));
         }
     }
@@ -418,11 +429,21 @@ impl<'n> Builder<'n> {
                     Cond::DefX => Expr::Call("defined".into(), vec![id("x")]),
                     Cond::DefU => Expr::Call("defined".into(), vec![id("u")]),
                     Cond::C1Eq2 => bin(id("c1"), "==", num(2)),
+                    Cond::Late1 => id("late1"),
+                    Cond::Late0 => id("late0"),
                 };
+                let mut defs = vec![filler.clone(), label("fwd"), label("outer")];
+                for (j, l) in self.nest.levels.iter().enumerate() {
+                    if matches!(l, Level::Const { .. }) {
+                        defs.push(konst(&format!("k{}", j), num(9)));
+                    }
+                }
                 let (then, els) = match shape {
                     IfShape::Then => (child, None),
                     IfShape::ThenElse => (child, Some(vec![filler])),
                     IfShape::InElse => (vec![filler], Some(child)),
+                    IfShape::ThenElseDefs => (child, Some(defs)),
+                    IfShape::InElseDefs => (defs, Some(child)),
                 };
                 vec![Stmt::If { cond, then, els }]
             }
@@ -600,6 +621,8 @@ fn build(nest: &Nest) -> Prog {
     main.push(label("fwd"));
     main.push(imp("rts"));
     main.extend(b.after);
+    main.push(konst("late1", num(1)));
+    main.push(konst("late0", num(0)));
     Prog { main, files: b.files }
 }
 
@@ -822,7 +845,8 @@ impl<'a> Expander<'a> {
         })
     }
 
-    /// Registers the definitions a statement list contributes to the current scope.
+    /// Registers the definitions a statement list contributes to the current scope. Conditionals
+    /// come last: their condition may refer to a constant that is defined further down.
     fn hoist(&mut self, list: &'a [Stmt]) -> Result<(), String> {
         for s in list {
             match s {
@@ -836,15 +860,6 @@ impl<'a> Expander<'a> {
                 Stmt::Label { name, .. } => {
                     self.top().names.insert(name.clone());
                 }
-                Stmt::If { cond, then, els } => {
-                    let c = static_eval(&self.xexpr(cond)?)? != 0;
-                    self.top().if_choice.insert(s as *const Stmt, c);
-                    if c {
-                        self.hoist(then)?;
-                    } else if let Some(e) = els {
-                        self.hoist(e)?;
-                    }
-                }
                 Stmt::Import { args, file, block } => {
                     self.imp_counter += 1;
                     let n = self.imp_counter;
@@ -856,6 +871,17 @@ impl<'a> Expander<'a> {
                     self.top().names.extend(vis);
                 }
                 _ => {}
+            }
+        }
+        for s in list {
+            if let Stmt::If { cond, then, els } = s {
+                let c = static_eval(&self.xexpr(cond)?)? != 0;
+                self.top().if_choice.insert(s as *const Stmt, c);
+                if c {
+                    self.hoist(then)?;
+                } else if let Some(e) = els {
+                    self.hoist(e)?;
+                }
             }
         }
         Ok(())
